@@ -3,6 +3,7 @@ package serversim
 import (
 	"errors"
 	"fmt"
+	"net"
 	"net/http"
 	"strings"
 	"testing"
@@ -15,7 +16,19 @@ func TestMain(m *testing.M) { stats.Main(m) }
 var (
 	errWrite = errors.New("harness: injected write failure")
 	errFlush = errors.New("harness: injected flush failure")
+	// what a real connection reports when a write deadline (http.Server.WriteTimeout,
+	// ResponseController.SetWriteDeadline) has passed: a net.Error with Timeout() true
+	errWriteTimeout error = timeoutErr("harness: injected write failure: i/o timeout")
+	errFlushTimeout error = timeoutErr("harness: injected flush failure: i/o timeout")
 )
+
+type timeoutErr string
+
+func (e timeoutErr) Error() string   { return string(e) }
+func (e timeoutErr) Timeout() bool   { return true }
+func (e timeoutErr) Temporary() bool { return true }
+
+var _ net.Error = timeoutErr("")
 
 const sseCT = "text/event-stream"
 
@@ -36,6 +49,21 @@ type core struct {
 	headerFlushedOK bool  // a flush succeeded while Content-Type was text/event-stream
 	violations      []string
 	tampered        bool
+	timeoutErrs     bool // injected failures are net.Errors with Timeout() true
+}
+
+func (c *core) writeErr() error {
+	if c.timeoutErrs {
+		return errWriteTimeout
+	}
+	return errWrite
+}
+
+func (c *core) flushErr() error {
+	if c.timeoutErrs {
+		return errFlushTimeout
+	}
+	return errFlush
 }
 
 func newCore(failWrite, acceptPct, failFlush int) *core {
@@ -72,9 +100,9 @@ func (c *core) Write(p []byte) (int, error) {
 		c.body.Write(p[:n])
 		c.log = append(c.log, fmt.Sprintf("Write(%d)->%d,ERR", len(p), n))
 		if c.opErr == nil {
-			c.opErr = errWrite
+			c.opErr = c.writeErr()
 		}
-		return n, errWrite
+		return n, c.writeErr()
 	}
 	c.body.Write(p)
 	c.log = append(c.log, fmt.Sprintf("Write(%d)", len(p)))
@@ -87,9 +115,9 @@ func (c *core) flush() error {
 	if c.canFailFlush && i == c.failFlush {
 		c.log = append(c.log, "Flush->ERR")
 		if c.opErr == nil {
-			c.opErr = errFlush
+			c.opErr = c.flushErr()
 		}
-		return errFlush
+		return c.flushErr()
 	}
 	c.log = append(c.log, fmt.Sprintf("Flush(ct=%q)", c.ct()))
 	if c.status == 0 {
